@@ -1,4 +1,4 @@
-"""C15: dump the DNA/RNA/amino alphabet tables (K, Kp, sym, inmap, complement) of the working tree into a Lean file.
+"""C15: dump the DNA/RNA/amino alphabet tables (K, Kp, sym, inmap, complement, degen, ndegen) of the working tree into a Lean file.
 Used from props/c15.py: SPEC.generated(ctx). The tables are what esl_msa_Digitize/Textize/ReverseComplement/MinimGaps read."""
 import os, subprocess, tempfile
 
@@ -16,6 +16,8 @@ int main(void) {
     printf("inmap"); for (i = 0; i < 128; i++) printf(" %d", a->inmap[i]); printf("\n");
     if (a->complement) { printf("compl"); for (i = 0; i < a->Kp; i++) printf(" %d", a->complement[i]); printf("\n"); }
     else printf("compl none\n");
+    printf("degen"); for (i = 0; i < a->Kp; i++) { int y; printf(" "); for (y = 0; y < a->K; y++) printf("%d", a->degen[i][y] ? 1 : 0); } printf("\n");
+    printf("ndegen"); for (i = 0; i < a->Kp; i++) printf(" %d", a->ndegen[i]); printf("\n");
     esl_alphabet_Destroy(a);
   }
   return 0;
@@ -41,15 +43,18 @@ def to_lean(txt):
            "namespace EaselModel.Msa.Gen", ""]
     lines = txt.strip().split("\n")
     names = []
-    for k in range(0, len(lines), 4):
+    for k in range(0, len(lines), 6):
         _, nm, ty, K, Kp = lines[k].split()
         sym = lines[k + 1].split()[1:]; inmap = lines[k + 2].split()[1:]; compl = lines[k + 3].split()[1:]
+        degen = lines[k + 4].split()[1:]; ndegen = lines[k + 5].split()[1:]
         names.append(nm)
         out.append("def %sAbc : Abc :=" % nm)
         out.append("  { type := %s, K := %s, Kp := %s," % (ty, K, Kp))
         out.append("    sym := [%s]," % ", ".join(sym))
         out.append("    inmap := [%s]," % ", ".join(inmap))
-        out.append("    complement := %s }" % ("none" if compl == ["none"] else "some [%s]" % ", ".join(compl)))
+        out.append("    complement := %s," % ("none" if compl == ["none"] else "some [%s]" % ", ".join(compl)))
+        out.append("    degen := [%s]," % ", ".join("[" + ", ".join("true" if c == "1" else "false" for c in row) + "]" for row in degen))
+        out.append("    ndegen := [%s] }" % ", ".join(ndegen))
         out.append("")
     out.append("end EaselModel.Msa.Gen")
     return "\n".join(out) + "\n"
